@@ -551,6 +551,12 @@ def gen_config(rng, ctype):
     return dict(name="gen:%s:%s" % (ctype, kind), sysm=sysm, frames=frames, text=text, aux=False)
 
 
+def lower_keys(nodes):
+    for nd in nodes:
+        nd.key = nd.key.lower()
+        lower_keys(nd.children)
+
+
 def braceify(nodes):
     """turn multi-valued numeric scalars into brace-delimited lists (the valid 'original' of list rewrites)"""
     n = 0
@@ -643,7 +649,7 @@ def make_mutations(rng, cfg, H, per_class):
         node_at(t, path).key = new
         out.append(dict(cls="misspelled_keyword", site="/".join(map(str, path)), text=render(t),
                         what="%s -> %s in %s block" % (n.key, new, blocktype(level, parent)),
-                        key="misspelled_keyword:%s:%s" % (level, n.key)))
+                        key="misspelled_keyword:%s:%s" % (level, KW.get(n.key.lower(), n.key))))
 
     # 2. keyword copied / moved into a block where it is neither documented nor looked up
     blocks = [("global", (), None)] + [(lv2, p, n.key) for n, p, lv, par in sites if n.kind == "block"
@@ -676,7 +682,7 @@ def make_mutations(rng, cfg, H, per_class):
         out.append(dict(cls="misplaced_keyword", site="/".join(map(str, path)) + ">" + "/".join(map(str, p2)),
                         text=render(t), what="%s (%s level) %s into %s block %s" %
                         (n.key, level, "moved" if moved else "copied", lv2, bkey or "(top level)"),
-                        key="misplaced_keyword:%s_in_%s:%s" % (level, lv2, n.key)))
+                        key="misplaced_keyword:%s_in_%s:%s" % (level, lv2, KW.get(n.key.lower(), n.key))))
 
     # 3. one brace deleted / added (canonical text has no comments: every brace counts)
     base = cfg["canon"]
@@ -718,7 +724,7 @@ def make_mutations(rng, cfg, H, per_class):
         m.kind, m.atoms, m.children = "bare", [], []
         out.append(dict(cls="missing_value", site="/".join(map(str, path)), text=render(t),
                         what="value of %s (%s) deleted in %s block" % (n.key, n.kind, blocktype(level, parent)),
-                        key="missing_value:%s:%s" % (level, n.key)))
+                        key="missing_value:%s:%s" % (level, KW.get(n.key.lower(), n.key))))
 
     # 5. numeric value replaced by an alphabetic token; 6. trailing text after a complete number (probe)
     cands = []
@@ -744,13 +750,13 @@ def make_mutations(rng, cfg, H, per_class):
                  "list_first" if j == 0 else "list_later")
         out.append(dict(cls="text_for_number", site="/".join(map(str, path)) + "#%d" % j, text=render(t),
                         what="%s %s -> %s" % (n.key, v[:60], nv[:60]),
-                        key="text_for_number:%s:%s" % (shape, n.key)))
+                        key="text_for_number:%s:%s" % (shape, KW.get(n.key.lower(), n.key))))
     scal = [c for c in cands if len(c[0].atoms) == 1 and len(c[0].atoms[0]) == 1]
     for n, path, level, parent, v, ms in rng.sample(scal, min(1, len(scal))):
         t = [x.clone() for x in tree]
         node_at(t, path).atoms = atomize(v + " " + rng.choice(ALPHA_TOKENS))
         out.append(dict(cls="trailing_text_after_number", site="/".join(map(str, path)), text=render(t),
-                        what="%s %s -> %s <text>" % (n.key, v, v), key="trailing_text_after_number:%s" % n.key))
+                        what="%s %s -> %s <text>" % (n.key, v, v), key="trailing_text_after_number:%s" % KW.get(n.key.lower(), n.key)))
     return out
 
 
@@ -1048,6 +1054,11 @@ def collect_configs(c, tier, H):
             t2 = [x.clone() for x in cf["tree"]]
             if braceify(t2):
                 out.append(dict(cf, name=cf["name"] + ":braced", tree=t2, text=render(t2), idx=len(cfgs) + i))
+        if rng.random() < 0.3:
+            # the same model written with lower-case keywords throughout (a different style of the *original*)
+            t3 = [x.clone() for x in cf["tree"]]
+            lower_keys(t3)
+            out.append(dict(cf, name=cf["name"] + ":lowercase", tree=t3, text=render(t3), idx=2 * len(cfgs) + i))
     for cf in out:
         cf["canon"] = render(cf["tree"])
     return out
